@@ -42,8 +42,15 @@ func newWS(c *vf.Case) (*websocket.Stream, *xport.Transport) {
 			_, _, _ = s.NextMessage(make([]byte, 256))
 			t0.HoldWrites = true
 			s.AsyncWrite([]byte("never completed"), websocket.TypeText, func(error) {})
-			t0.SetEnd(xport.EndEOF)
-			_, _ = s.NextFrame()
+			if c.Rng.Bool() {
+				t0.SetEnd(xport.EndEOF)
+				_, _ = s.NextFrame()
+			} else {
+				// ... or by the owner walking away after a blocking write that stopped part-way through a frame (the
+				// transport would block): the rest of that frame is still in the write buffer when the stream is set up again
+				t0.WriteBlockAt = len(t0.Written) + 3
+				_ = s.Write([]byte("interrupted part-way by would-block"), websocket.TypeBinary)
+			}
 			c.Count("streams_reused_after_a_dirty_session", 1)
 		}
 	}
